@@ -881,6 +881,8 @@ func (t *trans) progFunction(key string, fx bool) string {
 	var tpOrder []string
 	t.needDefault = map[string]bool{}
 	t.pureFns = map[string]sig{}
+	t.tpConvs = map[string]bool{}
+	t.fields = map[string]gty{}
 	if d.Type.TypeParams != nil {
 		for _, f := range d.Type.TypeParams.List {
 			for _, n := range f.Names {
@@ -947,13 +949,39 @@ func (t *trans) progFunction(key string, fx bool) string {
 			params = append(params, fmt.Sprintf("(%s : (%s → Prog) → Prog)", cbName(fkey), strings.Join(resTy, " → ")))
 			sg.recvFields = append(sg.recvFields, mname)
 		}
-		for _, f := range st.Fields.List {
+		// embedded structs are flattened: their fields are read as fields of the receiver
+		var flat []*ast.Field
+		var flatten func(fl *ast.FieldList)
+		flatten = func(fl *ast.FieldList) {
+			for _, f := range fl.List {
+				if len(f.Names) == 0 {
+					if id, ok := f.Type.(*ast.Ident); ok && t.p.structs[id.Name] != nil {
+						flatten(t.p.structs[id.Name].Fields)
+					}
+					continue
+				}
+				flat = append(flat, f)
+			}
+		}
+		flatten(st.Fields)
+		for _, f := range flat {
 			for _, n := range f.Names {
 				if !used[n.Name] {
 					continue
 				}
 				fkey := recv + "." + n.Name
 				sg.recvFields = append(sg.recvFields, n.Name)
+				if id, ok := f.Type.(*ast.Ident); ok && !typeParams[id.Name] {
+					switch id.Name {
+					case "bool", "int", "int64", "uint64", "uint", "int32", "uint32":
+						// a plain value: a parameter
+						ty := goTy(f.Type)
+						t.fields[n.Name] = ty
+						t.recv = recv
+						params = append(params, fmt.Sprintf("(%s : %s)", recv+"_"+n.Name, leanTy(ty)))
+						continue
+					}
+				}
 				if se, ok := f.Type.(*ast.StarExpr); ok {
 					if ix, ok := se.X.(*ast.IndexExpr); ok && exprText(t.p.fset, ix.X) == "Generator" {
 						ety := goTy(ix.Index)
@@ -1084,6 +1112,13 @@ func (t *trans) progFunction(key string, fx bool) string {
 		tpBinders = append(tpBinders, fmt.Sprintf("{%s : Type} [Go.Enc %s] [Inhabited %s]", tp, tp, tp))
 	}
 	params = append(tpBinders, params...)
+	// conversions to a type parameter (`I(i)`): what they do depends on the instance, they are parameters
+	var convs []string
+	for c := range t.tpConvs {
+		convs = append(convs, c)
+	}
+	sort.Strings(convs)
+	params = append(params, convs...)
 	out += fmt.Sprintf("/-- %s (%s) -/\ndef %s (fe : Go.FEval) %s (fuel : Nat) (k : %s) : Prog :=\n  %s\n",
 		key, t.p.fset.Position(d.Pos()), strings.ReplaceAll(key, ".", "_"), strings.Join(params, " "), kType(sg.results), body)
 	t.stream = ""
